@@ -6,6 +6,7 @@ import (
 	"math/rand"
 	"os"
 	"path/filepath"
+	"regexp"
 	"sort"
 	"strings"
 	"time"
@@ -25,7 +26,7 @@ func init() { register(c15{}) }
 
 func (c15) ID() string { return "C15" }
 func (c15) Rule() string {
-	return "the real gts binary (--no-cache) is run on generated GenBank records (20..60 residues that are pairwise distinct complement-invariant printable ids, 0..7 uniquely labelled features over ranges/points/joins/complements, linear and circular) and on the phiX174 corpus record, with locators built from points, ranges, complement(range), selectors by key and /label regexp matching 0..k features, each optionally with a modifier that stays in range (for gts rotate and single-cut gts split on circular records also positions before residue 1 or after the last residue, which wrap); commands delete [-e], insert [-e] (literal and file guests), infix [-e], split, rotate, extract [-v], each also with -F fasta. stdout is parsed back with seqio. Every third case is also run with the cache on, after the sibling invocation (-e or -v toggled; rotate for split and split for rotate) on the same input over the same cache directory, twice: it must print what the --no-cache run printed. The located regions are obtained from the same locator through the library (locator semantics are C08's); the expected output is computed by the model from the regions: delete -> residues minus the union, one record, features = image under the deletion of the maximal runs; insert/infix -> one guest copy per located region at its Head() in input coordinates, features = image under the insertions; split -> pieces concatenate to the input (circular: to the input rotated to a cut), cut set = one acceptable position per region (Head, or the lower coordinate for reverse-strand regions), fragments of each feature together cover its residues; rotate -> first located Head at index 0, features cyclically shifted; extract -> one record per distinct region shorter than the record (a single region as long as the record is don't-care), residues = model extraction, every feature of an extracted record denotes exactly the residues (distinct ids) its input feature denotes inside the region, -v -> the maximal unlocated stretches (the whole record when nothing is located). non-trivial: >=2 located regions, or regions that overlap/nest/abut/are unsorted; distinct: (command line, input record)."
+	return "the real gts binary (--no-cache) is run on generated GenBank records (20..60 residues that are pairwise distinct complement-invariant printable ids, 0..7 uniquely labelled features over ranges/points/joins/complements, linear and circular) and on the phiX174 corpus record, with locators built from points, ranges, complement(range), selectors by key and /label regexp matching 0..k features, each optionally with a modifier that stays in range (for gts rotate and single-cut gts split on circular records also positions before residue 1 or after the last residue, which wrap); commands delete [-e], insert [-e] (literal and file guests), infix [-e], split, rotate, extract [-v], each also with -F fasta. stdout is parsed back with seqio. Every third case is also run with the cache on, after the sibling invocation (-e or -v toggled; rotate for split and split for rotate) on the same input over the same cache directory, twice: it must print what the --no-cache run printed. The located regions are obtained from the same locator through the library (locator semantics are C08's); the expected output is computed by the model from the regions: delete -> residues minus the union, one record, features = image under the deletion of the maximal runs; insert/infix -> one guest copy per located region at its Head() in input coordinates, features = image under the insertions; split -> pieces concatenate to the input (circular: to the input rotated to a cut), cut set = one acceptable position per region (Head, or the lower coordinate for reverse-strand regions), fragments of each feature together cover its residues; rotate -> first located Head at index 0, features cyclically shifted; extract -> one record per distinct region shorter than the record (a single region as long as the record is don't-care), residues = model extraction, every feature of an extracted record denotes exactly the residues (distinct ids) its input feature denotes inside the region, -v -> the maximal unlocated stretches (the whole record when nothing is located). non-trivial: >=2 located regions, or regions that overlap/nest/abut/are unsorted; distinct: (command line, input record). For bare selectors the harness wrote on generated records the located regions must be those of the selected features, part for part and strand for strand; every cached twin also follows the same command asked for the other output format."
 }
 func (c15) Assumptions() []string {
 	return []string{"seqio's scanner as the reader of gts output (itself the subject of C01/C07/C16/C17)", "the library's AsLocator for which regions a locator denotes (subject of C08)", "Go toolchain; harness models"}
@@ -35,7 +36,7 @@ func (c15) RequiredBuckets(tier string) []string {
 	for _, k := range []string{"delete", "delete -e", "insert", "insert -e", "infix", "split", "rotate", "extract", "extract -v"} {
 		out = append(out, "cmd:"+k)
 	}
-	out = append(out, "sites:0", "sites:1", "sites:2+", "sites:overlapping", "sites:duplicate-head", "sites:reverse-strand", "sites:unsorted", "topology:circular", "topology:linear", "format:fasta", "format:genbank", "input:corpus", "input:generated", "locator:modifier", "sites:beyond-the-origin-of-a-circular-record", "cache-on:after-sibling", "extract:features-denote-their-residues")
+	out = append(out, "sites:0", "sites:1", "sites:2+", "sites:overlapping", "sites:duplicate-head", "sites:reverse-strand", "sites:unsorted", "topology:circular", "topology:linear", "format:fasta", "format:genbank", "input:corpus", "input:generated", "locator:modifier", "sites:beyond-the-origin-of-a-circular-record", "cache-on:after-sibling", "cache-on:after-other-format", "extract:features-denote-their-residues", "sites:selector-regions-are-the-features'")
 	return out
 }
 func (c15) Findings() []fw.Finding {
@@ -430,6 +431,33 @@ func (x *c15run) one(rec *c15rec, cmd string, flags []string, locstr string, r *
 			}
 		}
 	}
+	// a bare selector the harness wrote itself (key, /label=regexp,
+	// key/label=regexp) on a generated record: the located regions are those of
+	// the matching features, part for part and strand for strand, in table order.
+	if !rec.corpus && loc2 == "" && !strings.Contains(locstr, "@") && !strings.ContainsAny(locstr[:1], "0123456789c") {
+		key, pat := locstr, ""
+		if i := strings.Index(locstr, "/label="); i >= 0 {
+			key, pat = locstr[:i], locstr[i+len("/label="):]
+		}
+		if re, err := regexp.Compile(pat); err == nil && !strings.Contains(key, "/") {
+			var want [][]model.DSeg
+			for _, f := range rec.seq.Features() {
+				if (key == "" || f.Key == key) && (pat == "" || re.MatchString(gen.Label(f))) {
+					want = append(want, model.RegionOf(f.Loc))
+				}
+			}
+			var got [][]model.DSeg
+			for _, rg := range regs {
+				got = append(got, regionSegs(rg))
+			}
+			c.Bucket("sites:selector-regions-are-the-features'")
+			if fmt.Sprint(want) != fmt.Sprint(got) {
+				c.Count(enc, true)
+				c.Violate("located-regions-are-not-the-selected-features'", enc, fmt.Sprint(want), fmt.Sprint(got))
+				return
+			}
+		}
+	}
 	segs := make([][]model.DSeg, len(regs))
 	heads := make([]int, len(regs))
 	inRange := true
@@ -570,6 +598,28 @@ func (x *c15run) one(rec *c15rec, cmd string, flags []string, locstr string, r *
 		}
 		x.env.ResetCache()
 		x.env.Run(sib, stdin, nil, 60*time.Second)
+		{
+			// the same command asked for the other output format.
+			oth, had := []string{}, false
+			for i := 0; i < len(main); i++ {
+				if (main[i] == "-F" || main[i] == "--format") && i+1 < len(main) {
+					had = true
+					if main[i+1] == "fasta" {
+						oth = append(oth, "-F", "genbank")
+					} else {
+						oth = append(oth, "-F", "fasta")
+					}
+					i++
+					continue
+				}
+				oth = append(oth, main[i])
+			}
+			if !had {
+				oth = append(oth, "-F", "fasta")
+			}
+			x.env.Run(oth, stdin, nil, 60*time.Second)
+			c.Bucket("cache-on:after-other-format")
+		}
 		if cmd == "extract" && loc2 != "" && loc2 != locstr {
 			// the same locators in the other order.
 			swp := append([]string{}, main...)
